@@ -64,7 +64,8 @@ def gen_desc(verif_seed: int, i: int, tier: str = "quick") -> dict:
     if rng.random() < 0.3:
         userinfo = can("URLPW")
         canaries["url:userinfo"] = {"value": userinfo}
-    behaviour = gen.gen_behaviour(rng, udesc, kinds=["http500", "undocumented"], p_none=0.2, max_n=2)
+    # exchanges without a response (network errors) travel through the reporters on a different path than answered ones
+    behaviour = gen.gen_behaviour(rng, udesc, kinds=["http500", "undocumented", "http500", "read_timeout", "reset", "connect"], p_none=0.2, max_n=3)
     for b in behaviour:
         if rng.random() < 0.6:
             b["trigger"] = {"always": True}
@@ -126,7 +127,7 @@ RULE_TEXT = (
     "one case = one simulated CLI run (argv set as the st executable would have it) with unique canary secrets planted on "
     "seeded input routes (-H Authorization / X-API-Key / marker-named header, --auth, --set-query api_key, --set-cookie session, "
     "base-URL userinfo, peer Set-Cookie and X-Auth-Token response headers), failing peers so that failure blocks and curl lines "
-    "are printed, reports vcr+har+junit; every artifact (stdout, stderr, each report file, every code sample in delivered "
+    "are printed, network errors (timeout, reset, refused) so that exchanges without a response reach the reporters, reports vcr+har+junit; every artifact (stdout, stderr, each report file, every code sample in delivered "
     "recorders) is grepped for every canary (raw and base64 form); with sanitisation off the canaries must appear and a "
     "non-sensitive control header must stay visible in both modes; non-trivial = >= 2 canaries actually travelled on the wire or "
     "in responses and >= 1 artifact produced; distinct = distinct (canary route set, wire digest)"
@@ -137,7 +138,7 @@ ASSUMPTIONS = [
     "custom key/marker lists (sanitization.configure/extend) are not varied",
 ]
 EXPECTED_PROBES = ["custom_keys", "sanitize_on", "sanitize_off", "route:header:Authorization", "route:auth:basic", "route:query:api_key",
-                   "route:cookie:session", "route:url:userinfo", "route:response:Set-Cookie", "failures_printed"]
+                   "route:cookie:session", "route:url:userinfo", "route:response:Set-Cookie", "failures_printed", "exchanges_without_response"]
 
 
 def fired_faults(desc: dict, res: dict) -> dict:
@@ -149,6 +150,8 @@ def fired_faults(desc: dict, res: dict) -> dict:
         out["failures_printed"] = 1
     if st.get("custom_keys"):
         out["custom_keys"] = 1
+    if st.get("network_errors"):
+        out["exchanges_without_response"] = st["network_errors"]
     return out
 
 
@@ -210,6 +213,7 @@ class C15Profile(Profile):
                 if r.response is not None:
                     wire_text.append("\n".join(f"{k}: {val}" for k, val in r.response.headers))
         wire_blob = "\n".join(wire_text)
+        st["network_errors"] = sum(1 for r in ctx.netlog if r.outcome != "response" and r.phase in ("examples", "coverage", "fuzzing", "stateful"))
         canaries = cfg["canaries"]
         for route, c in canaries.items():
             forms = [c["value"]] + ([c["b64"]] if c.get("b64") else [])
